@@ -116,6 +116,7 @@ def rules(ck, P):
             # the recompress is inside the fill guard (only the winning tile is re-encoded and stored)
     # ---------------- build: union coverage, compression, format
     b = builds[0]
+    comp.sources_in_list_order(ck, "R-FIRST", "overlay", b, adt)
     lets = comp.lets_of(b)
     loops = [n for n in ir.walk_nodes(b["body"]) if n.get("k") == "for" and ir.place_str(n["iter"]) in ("sources.iter()", "sources", "sources.iter().skip(1)")]
     inc = [n for n in ir.walk_nodes(b["body"]) if n.get("k") == "mcall" and n.get("name") == "include_bbox_pyramid"]
